@@ -92,6 +92,8 @@ def build_jobs(t_, sd):
                         backends.append(("sub", {"frame_pointers": False}))
                 elif thorough or v == 6:
                     backends.append(("sub", None))
+                if v >= 8 or (thorough and v == 6):
+                    backends.append(("abiret", None))
                 for be, opt in backends:
                     jobs.append({"id": "enc:%s:%s@v%d/%s%s" % (T.T_str(t), lv, v, be, "" if opt is None else "-nofp"), "family": "encode:" + be,
                                  "type": to_json(t), "lens": lv, "version": v, "backend": be, "optimize": opt, "fn": "encode"})
@@ -103,6 +105,13 @@ def build_jobs(t_, sd):
                 for v in ([6, 8] if not thorough else [5, 8, 10]):
                     jobs.append({"id": "lit-%s:%s:%s@v%d" % (which, T.T_str(t), lv, v), "family": "literal:" + which, "type": to_json(t), "lens": lv,
                                  "version": v, "backend": "main" if v < 8 else "sub", "literal": to_json(lit), "fn": "encode"})
+    # values with about 128 parts, assembled inside a subroutine: one frame holds at most 128 locals (the output of an
+    # ABIReturnSubroutine is one of them); the rest must go to scratch slots
+    for t in (("sarray", ("bool",), 122), ("sarray", ("bool",), 123), ("sarray", ("bool",), 124), ("sarray", ("bool",), 130), ("sarray", G.U64, 124)):
+        for v in ((8, 10) if thorough else (8,)):
+            for be, opt in (("sub", None), ("abiret", None)) + ((("abiret", {"frame_pointers": False}),) if thorough else ()):
+                jobs.append({"id": "enc-many-parts:%s@v%d/%s%s" % (T.T_str(t), v, be, "" if opt is None else "-nofp"), "family": "encode:" + be,
+                             "type": to_json(t), "lens": [], "version": v, "backend": be, "optimize": opt, "fn": "encode", "timeout_ms": 60000})
     # integer leaves given as Int(<literal>) expressions at the width boundaries: 2^N - 1 must encode, 2^N and 2^N + 1 must make the program fail
     for bits in (8, 16, 32):
         for delta, nm in ((-1, "max"), (0, "pow"), (1, "pow1")):
